@@ -7,7 +7,7 @@ use chrono::{Duration, NaiveDate, Weekday};
 use opening_hours_syntax::rules::day::{self as ds, Date, Month};
 
 use crate::localization::Localize;
-use crate::opening_hours::{DATE_END, DATE_START};
+use crate::opening_hours::DATE_END;
 use crate::utils::dates::{count_days_in_month, easter};
 use crate::utils::range::WrappingRange;
 use crate::Context;
@@ -87,10 +87,8 @@ fn intervals_from_bounds(
         let range = match (bounds_start.peek().copied(), bounds_end.peek().copied()) {
             // The date is after the end of the last interval
             (None, None) => return None,
-            (None, Some(end)) => {
-                bounds_end.next();
-                DATE_START.date()..=end
-            }
+            // An end bound that no start bound precedes does not close any interval
+            (None, Some(_)) => return None,
             (Some(start), None) => {
                 bounds_start.next();
                 start..=DATE_END.date()
@@ -276,6 +274,13 @@ fn date_on_year(
     }
 }
 
+/// Get the year a date is attached to, if any.
+fn date_year(date: &ds::Date) -> Option<i32> {
+    match date {
+        ds::Date::Fixed { year, .. } | ds::Date::Easter { year } => year.map(Into::into),
+    }
+}
+
 impl DateFilter for ds::MonthdayRange {
     fn filter<L>(&self, date: NaiveDate, _ctx: &Context<L>) -> bool
     where
@@ -304,13 +309,28 @@ impl DateFilter for ds::MonthdayRange {
                     );
                 }
 
+                // A bound attached to a specific year has to be considered whatever the distance
+                // to the evaluated date is.
+                let mut years: Vec<i32> = (year - 1..=year + 1).collect();
+
+                if let Some(start_year) = date_year(start) {
+                    years.extend([start_year, start_year + 1]);
+                }
+
+                if let Some(end_year) = date_year(end) {
+                    years.push(end_year);
+                }
+
+                years.sort_unstable();
+                years.dedup();
+
                 is_open_from_bounds(
                     date,
-                    (year - 1..=year + 1)
-                        .filter_map(|y| date_on_year(*start, y, valid_ymd_after))
+                    (years.iter())
+                        .filter_map(|y| date_on_year(*start, *y, valid_ymd_after))
                         .map(|d| start_offset.apply(d)),
-                    (year - 1..=year + 1)
-                        .filter_map(|y| date_on_year(*end, y, valid_ymd_before))
+                    (years.iter())
+                        .filter_map(|y| date_on_year(*end, *y, valid_ymd_before))
                         .map(|d| end_offset.apply(d)),
                 )
             }
